@@ -49,13 +49,19 @@ def weighted_choice(choices: List[Tuple[float, object]]):
     return random.choices(options, weights, k=1)[0]
 
 
-@lru_cache(maxsize=512)
 def parse_date(d: Union[str, datetime, date]) -> date:
     if isinstance(d, datetime):
         return d.date()
     elif isinstance(d, date):
         return d
 
+    return _parse_date_text(d)
+
+
+@lru_cache(maxsize=512)
+def _parse_date_text(d: str) -> date:
+    # only text is cached: aware datetimes for the same instant in different
+    # zones compare (and hash) equal although they fall on different dates
     return dateutil.parser.parse(d).date()
 
 
@@ -74,19 +80,25 @@ def parse_datetimespec(d: Union[str, datetime, date]) -> datetime:
     return _parse_datetimespec(d)
 
 
-@lru_cache(maxsize=512)
 def _parse_datetimespec(d: Union[str, datetime, date]) -> datetime:
     if isinstance(d, datetime):
         if not d.tzinfo:
             d = d.replace(tzinfo=timezone.utc)
         return d
     elif isinstance(d, str):
-        d = dateutil.parser.parse(d)
-        if not d.tzinfo:
-            d = d.replace(tzinfo=timezone.utc)
-        return d
+        return _parse_datetime_text(d)
     elif isinstance(d, date):
         return datetime.combine(d, datetime.min.time(), tzinfo=timezone.utc)
+
+
+@lru_cache(maxsize=512)
+def _parse_datetime_text(d: str) -> datetime:
+    # only text is cached (see _parse_date_text): an aware datetime must come
+    # back in its own zone, not in the zone of an equal instant seen earlier
+    parsed = dateutil.parser.parse(d)
+    if not parsed.tzinfo:
+        parsed = parsed.replace(tzinfo=timezone.utc)
+    return parsed
 
 
 def render_boolean(context: PluginContext, value: FieldDefinition) -> bool:
